@@ -1180,6 +1180,16 @@ caption_command(vbi_decoder *vbi, struct caption *cc,
 			if (last_row > ROWS - 1)
 				last_row = ROWS - 1;
 
+			/* 47 CFR 15.119 (h)(1), EIA 608-B Annex C.14: Attributes
+			   end with the row, a new row starts white, not
+			   underlined, not italic, not flashing. */
+			if (ch->mode == MODE_ROLL_UP || ch->mode == MODE_TEXT) {
+				ch->attr.underline = FALSE;
+				ch->attr.italic = FALSE;
+				ch->attr.flash = FALSE;
+				ch->attr.foreground = VBI_WHITE;
+			}
+
 			if (ch->row < last_row) {
 				word_break(cc, ch, 1);
 				set_cursor(ch, 1, ch->row + 1);
